@@ -167,7 +167,8 @@ def gen_c12(r, tier, info):
     sels = sels_for(info)
     std = info.get("std") == "1"
     n = 150 if tier == "quick" else 3000
-    return [gen.adapters(r, sels, force=True, std=std) for _ in range(n)] + [gen.builders(r) for _ in range(n // 3)]
+    return [gen.adapters(r, sels, force=True, std=std) for _ in range(n)] + [gen.builders(r) for _ in range(n // 3)] + \
+        [gen.provided(r, sels, info, force=True, std=std) for _ in range(n // 2)]
 
 
 # ---- C13 ---------------------------------------------------------------------------------------
